@@ -5,6 +5,9 @@
 //     procedure x peripheral latency (CONNECT_IND) x k events before x delta (instant = counter of the receiving
 //     event + delta) x traffic while pending x every received/missed pattern over N events
 // is executed on restored snapshots, followed by a deterministic drain (LL_PING_REQ + received events).
+// Second product: the connection ends while the procedure is still waiting for its instant (central goes silent with or without a
+// LL_TERMINATE_IND, local disconnect()), the link layer advertises again and a different CONNECT_IND is accepted: the new connection
+// has to use its own parameters throughout and has to answer a LL_PING_REQ (nothing of the old procedure survives).
 #include "../mc/mc.hpp"
 #include "ll_world.hpp"
 #include <bluetoe/server.hpp>
@@ -102,10 +105,12 @@ static const char* delta_class( int d )
 // Core 5.x Vol 6 Part B 5.1.1 / 5.1.2 / 5.1.10: ( Instant - connEventCount ) mod 65536 >= 32767 -> instant is in the past
 static bool instant_passed( int d ) { return ( unsigned( d ) & 0xffffu ) >= 32767u; }
 
+static unsigned cur_hop = hop;      // hop increment of the connection in progress ( set by connect() / reconnect() only )
+
 // reference channel selection algorithm #1 (Vol 6 Part B 4.5.8.2), event counter n, lastUnmappedChannel starts with 0
 static unsigned csa1( const std::uint8_t* map, unsigned n )
 {
-    const unsigned unmapped = ( ( n + 1 ) * hop ) % 37;
+    const unsigned unmapped = ( ( n + 1 ) * cur_hop ) % 37;
     if ( map[ unmapped / 8 ] & ( 1 << ( unmapped % 8 ) ) ) return unmapped;
     unsigned used[ 37 ], nused = 0;
     for ( unsigned c = 0; c != 37; ++c ) if ( map[ c / 8 ] & ( 1 << ( c % 8 ) ) ) used[ nused++ ] = c;
@@ -115,13 +120,22 @@ static unsigned csa1( const std::uint8_t* map, unsigned n )
 struct Case
 {
     int proc, lat, k, shift, delta, traffic, nev;   // shift: LL_PING_REQ exchanges before the k empty events (moves the position in the receive ring)
-    unsigned pattern;   // bit j set: event j after the procedure PDU is received, else missed
+    unsigned pattern;   // bit j set: event j after the procedure PDU ( end != 0: of the second connection ) is received, else missed
+    int end = 0;        // 0: one connection; else the connection ends before the instant and a second one follows, see end_name
 };
+
+enum { E_NONE = 0, E_TERMINATE = 1, E_TIMEOUT = 2, E_DISCONNECT = 3 };
+static const char* const end_name[] = { "none", "remote-terminate-then-silence", "supervision-timeout", "local-disconnect" };
+
+// second connection
+constexpr unsigned second_interval = 36, second_timeout = 100, second_hop = 7;
+static const std::uint8_t second_map[ 5 ] = { 0xff, 0xff, 0x0f, 0x00, 0x00 };   // channels 0..19
 
 static std::string case_line( const Case& c )
 {
-    return mc::fmt( "case proc=%d lat=%d k=%d shift=%d delta=%d traffic=%d nev=%d pattern=%u  (%s, latency %d, %d+%d events before, instant=counter%+d, traffic %s)",
-        c.proc, c.lat, c.k, c.shift, c.delta, c.traffic, c.nev, c.pattern, proc_name[ c.proc ], c.lat, c.shift, c.k, c.delta, traffic_name[ c.traffic ] );
+    return mc::fmt( "case proc=%d lat=%d k=%d shift=%d delta=%d traffic=%d nev=%d pattern=%u end=%d  (%s, latency %d, %d+%d events before, instant=counter%+d, traffic %s%s%s)",
+        c.proc, c.lat, c.k, c.shift, c.delta, c.traffic, c.nev, c.pattern, c.end, proc_name[ c.proc ], c.lat, c.shift, c.k, c.delta, traffic_name[ c.traffic ],
+        c.end ? "; connection ends before the instant by " : "", c.end ? end_name[ c.end ] : "" );
 }
 
 // ---------------------------------------------------------------------------------------------------------------
@@ -144,6 +158,9 @@ struct Ref
     std::uint16_t anchor_cnt;       // counter of the last received event
     std::uint8_t  unconfirmed;      // channel map: old and new map gave the same channel at the instant, first differing event decides
     std::uint8_t  proc_pdu[ 16 ];   // the procedure PDU as sent
+    std::uint8_t  ending;           // the central / the application ends the connection: the link may close
+    std::uint8_t  second;           // 0, else E_* : this is the connection after the one that ended with a pending procedure
+    std::uint16_t stale_instant;
     std::uint8_t  overwritten;      // observation (private member): the memory defered_ll_control_pdu_ points to changed while the procedure was pending
 };
 
@@ -202,12 +219,13 @@ void push_procedure( int proc, std::uint16_t instant )
 }
 
 // what kind of PDU is q[i]
-enum { K_PROC, K_PING, K_ATT, K_PHY_REQ, K_WRITE_CMD };
+enum { K_PROC, K_PING, K_ATT, K_PHY_REQ, K_WRITE_CMD, K_TERMINATE };
 int kind_of( const std::uint8_t* p )
 {
     if ( p[ 0 ] == 0x02 ) return p[ 6 ] == 0x52 ? K_WRITE_CMD : K_ATT;
     if ( p[ 2 ] == 0x12 ) return K_PING;
     if ( p[ 2 ] == 0x16 ) return K_PHY_REQ;
+    if ( p[ 2 ] == 0x02 ) return K_TERMINATE;
     return K_PROC;
 }
 
@@ -223,6 +241,11 @@ bool fail( Outcome& o, const std::string& sig, const std::string& detail )
         o.sig    = mc::fmt( "pending-procedure-overwritten-by-received-data:%s", proc_name[ g_ref.proc ] );
         o.detail = "[symptom " + sig + "] " + detail + "; the receive buffer slot defered_ll_control_pdu_ points to was freed when the PDU was accepted and has been "
                    "reused by PDUs received while the procedure was pending";
+    }
+    else if ( g_ref.second && sig.rfind( "harness:", 0 ) != 0 )
+    {
+        o.sig    = mc::fmt( "pending-procedure-survives-connection-end:%s", proc_name[ g_ref.proc ] );
+        o.detail = "[symptom " + sig + mc::fmt( "] in the connection that follows one which ended ( %s ) while a procedure ( instant %u ) was pending: ", end_name[ g_ref.second ], unsigned( g_ref.stale_instant ) ) + detail;
     }
     vlog( o, "    FAIL " + o.sig + ": " + o.detail );
     return false;
@@ -385,6 +408,7 @@ bool step( bool received, Outcome& o, unsigned max_pdus = 1 )
             if ( ( t.d[ 0 ] & 3 ) == 3 && t.n == 3 && t.d[ 2 ] == 0x13 ) ++g_ref.got_ping;
             else if ( ( t.d[ 0 ] & 3 ) == 3 && t.n == 5 && t.d[ 2 ] == 0x17 ) ++g_ref.got_phy_rsp;
             else if ( ( t.d[ 0 ] & 3 ) == 2 && t.n == 8 && t.d[ 4 ] == 0x04 && t.d[ 6 ] == 0x0b && t.d[ 7 ] == 0x42 ) ++g_ref.got_att;
+            else if ( g_ref.ending && ( t.d[ 0 ] & 3 ) == 3 && t.n == 4 && t.d[ 2 ] == 0x02 ) {}   // LL_TERMINATE_IND after disconnect()
             else return fail( o, sigof( "unexpected-pdu-from-peripheral" ), "the peripheral sent " + mc::hex( t.d, t.n < LLW_MAX_PDU ? t.n : LLW_MAX_PDU ) + " which answers nothing the central sent" );
         }
     }
@@ -399,6 +423,7 @@ bool step( bool received, Outcome& o, unsigned max_pdus = 1 )
             case K_ATT:     ++g_ref.exp_att; break;
             case K_PHY_REQ: ++g_ref.exp_phy_rsp; break;
             case K_WRITE_CMD: g_ref.last_cmd_acked = g_ref.q[ i ][ 9 ]; break;
+            case K_TERMINATE: break;
             default:        proc_delivered = true; break;
         }
     }
@@ -435,6 +460,11 @@ bool step( bool received, Outcome& o, unsigned max_pdus = 1 )
                     p, unsigned( std::uint16_t( p + g_ref.delta ) ), g_ref.delta, probe_text( r ).c_str() ) );
         }
         g_ref.d_apply = std::uint16_t( g_ref.delta < 1 ? 1 : g_ref.delta );
+    }
+    else if ( closed && g_ref.ending )
+    {
+        g_ref.phase = 3; o.closed = true;
+        return false;
     }
     else if ( closed )
     {
@@ -522,6 +552,7 @@ bool connect( int lat, Outcome& o )
     auto& ll = g_ll.get();
     ll.run();
     if ( ll.log.adv_count != 1 ) return fail( o, "harness:not-advertising", "no advertising scheduled by run()" );
+    cur_hop = hop;
 
     llw::connect_ind ci;
     ci.latency = std::uint16_t( lat ); ci.interval = old_interval; ci.timeout = old_timeout; ci.hop = hop;
@@ -620,16 +651,92 @@ void tail( const Case& c, Outcome& o )
     o.cls = "applied-at-instant";
 }
 
+// ---- the connection ends while the procedure is pending, a second connection follows
+// returns true if the link ended with the procedure still pending ( the scenario ), false otherwise ( o.sig set on an oracle failure )
+bool end_connection( const Case& c, Outcome& o )
+{
+    auto& ll = g_ll.get();
+    g_ref.ending = 1;
+    vlog( o, mc::fmt( "  the connection is ended: %s", end_name[ c.end ] ) );
+    if ( c.end == E_TERMINATE )
+    {
+        push_pdu( 0x03, { 0x02, 0x13 } );
+        if ( !step( true, o ) ) return false;      // processed at once: the procedure was not pending any more ( or an oracle failed )
+    }
+    if ( c.end == E_DISCONNECT ) ll.disconnect();
+    for ( int i = 0; i != 40; ++i )
+    {
+        const std::uint8_t phase_before = g_ref.phase;
+        if ( !step( c.end == E_DISCONNECT, o ) )
+            return o.sig.empty() && o.closed && phase_before == 1;
+    }
+    return false;
+}
+
+bool reconnect( const Case& c, Outcome& o )
+{
+    auto& ll = g_ll.get();
+    const std::uint16_t stale = std::uint16_t( g_ref.c_rx + g_ref.delta );
+    const auto ce_before = ll.log.ce_count;
+    std::memset( &g_ref, 0, sizeof g_ref );
+    g_ref.proc = std::uint8_t( c.proc ); g_ref.delta = c.delta; g_ref.second = std::uint8_t( c.end ); g_ref.stale_instant = stale;
+
+    llw::connect_ind ci;
+    ci.access_address = 0x8e89bed7u ^ 0x5a5a0000u; ci.crc_init = 0x123456;
+    ci.interval = second_interval; ci.timeout = second_timeout; ci.latency = 0; ci.hop = second_hop; ci.win_offset = 2; ci.win_size = 1;
+    std::memcpy( ci.map, second_map, 5 );
+    std::uint8_t pdu[ 40 ];
+    const std::size_t n = ci.build( pdu, ll.log.adv_data );
+    ll.sim_adv_received( pdu, n );
+    if ( ll.log.ce_count != ce_before + 1 ) return fail( o, "harness:second-connect-ind-not-accepted", "" );
+    cur_hop = second_hop;
+    g_ref.interval_us = second_interval * 1250u;
+    std::memcpy( g_ref.map, second_map, 5 );
+    g_ref.phy_count = ll.log.phy_count;
+    g_ref.changed   = g_obs.changed;
+    vlog( o, mc::fmt( "  second CONNECT_IND interval %u latency 0 timeout %u hop %u map channels 0..19 -> first event on channel %u ( instant of the old procedure: %u )",
+        second_interval, second_timeout, second_hop, ll.log.ce_channel, unsigned( stale ) ) );
+    if ( ll.log.ce_channel != csa1( g_ref.map, 0 ) || ll.log.ce_interval_us != g_ref.interval_us )
+        return fail( o, "second-connection-first-event", mc::fmt( "first event on channel %u with interval %u us", ll.log.ce_channel, ll.log.ce_interval_us ) );
+    return true;
+}
+
+// nev events by pattern, then received events until the old instant is 3 events behind, then LL_PING_REQ + drain
+void second_connection( const Case& c, Outcome& o )
+{
+    for ( int j = 0; j != c.nev; ++j )
+        if ( !step( ( c.pattern >> j ) & 1, o ) ) return;
+    for ( int j = 0; j != 70; ++j )
+    {
+        const unsigned to_go = std::uint16_t( g_ref.stale_instant + 3 - g_ll->connection_event_counter() );
+        if ( to_go == 0 || to_go >= 64 ) break;    // behind the old instant, or the old instant is out of reach
+        if ( !step( true, o ) ) return;
+    }
+    push_ping();
+    for ( int j = 0; j != 6 && !all_answered(); ++j )
+        if ( !step( true, o ) ) return;
+    if ( !all_answered() )
+    {
+        fail( o, sigof( "ping-unanswered" ), mc::fmt( "LL_PING_REQ not answered within 6 received events ( %u PDUs of the central not acknowledged )", unsigned( g_ref.qn ) ) );
+        return;
+    }
+    o.cls = "second-connection-clean";
+}
+
 void run_case_from_scratch( const Case& c, Outcome& o )
 {
     if ( !prefix( c, o ) ) return;
     if ( !deliver( c, o ) ) return;
-    tail( c, o );
+    if ( c.end == E_NONE ) { tail( c, o ); return; }
+    if ( !end_connection( c, o ) ) { if ( o.sig.empty() ) o.cls = "instant-reached-before-the-connection-ended"; return; }
+    if ( !reconnect( c, o ) ) return;
+    second_connection( c, o );
 }
 
 bool parse_case( const std::string& s, Case& c )
 {
-    return std::sscanf( s.c_str(), "case proc=%d lat=%d k=%d shift=%d delta=%d traffic=%d nev=%d pattern=%u", &c.proc, &c.lat, &c.k, &c.shift, &c.delta, &c.traffic, &c.nev, &c.pattern ) == 8
+    return std::sscanf( s.c_str(), "case proc=%d lat=%d k=%d shift=%d delta=%d traffic=%d nev=%d pattern=%u end=%d", &c.proc, &c.lat, &c.k, &c.shift, &c.delta, &c.traffic, &c.nev, &c.pattern, &c.end ) == 9
+        && c.end >= 0 && c.end <= 3
         && c.proc >= 0 && c.proc <= 2 && c.traffic >= 0 && c.traffic <= 5 && c.nev >= 0 && c.nev <= 16 && c.k >= 0 && c.k <= 64 && c.shift >= 0 && c.shift <= 200
         && c.lat >= 0 && c.lat <= 7;
 }
@@ -764,10 +871,58 @@ int main( int argc, char** argv )
         block( proc, 0, 0, shift, { 2, 3, 7 }, { T_LONG3, T_ATT }, 8, th );
     }
 
+    // the connection ends while the procedure is pending; a second connection follows
+    {
+        static Snapshot s_second;
+        const std::vector< int > lats2 = th ? std::vector< int >{ 0, 1, 3 } : std::vector< int >{ 0 };
+        const std::vector< int > ks2   = th ? std::vector< int >{ 0, 1, 5 } : std::vector< int >{ 0 };
+        for ( int proc = 0; proc != 3 && !cut; ++proc )
+        for ( int lat : lats2 ) for ( int k : ks2 )
+        for ( int end = E_TERMINATE; end <= E_DISCONNECT; ++end )
+        {
+            // the instant has to be behind the end of the connection: > 24 missed events ( 720 ms / 30 ms ) resp. > 3 events for disconnect()
+            const std::vector< int > ds = end == E_DISCONNECT ? ( th ? std::vector< int >{ 6, 7, 9, 40 } : std::vector< int >{ 6, 7 } )
+                                                              : ( th ? std::vector< int >{ 30, 33, 40, 100, 32766 } : std::vector< int >{ 30, 33 } );
+            for ( int delta : ds )
+            {
+                if ( a.expired() ) { cut = true; break; }
+                Case c{ proc, lat, k, 0, delta, T_NONE, 8, 0, end };
+                Outcome o;
+                bool ready = prefix( c, o ) && deliver( c, o );
+                if ( ready ) { ready = end_connection( c, o ); if ( !ready && o.sig.empty() ) o.cls = "instant-reached-before-the-connection-ended"; }
+                if ( ready ) ready = reconnect( c, o );
+                rep.transitions += g_ll->log.ce_count;
+                if ( !ready )
+                {
+                    ++rep.evaluations; ++rep.traces_validated;
+                    report( c, o );
+                    const std::string cl = mc::fmt( "reconnect/%s/%s/%s", proc_name[ proc ], end_name[ end ], o.sig.empty() ? o.cls.c_str() : "VIOLATION" );
+                    rep.cls( cl ); ++per_class[ cl ];
+                    continue;
+                }
+                save( s_second );
+                const std::uint32_t events_before = g_ll->log.ce_count + g_ll->log.adv_count;
+                // the first event of the second connection is received ( otherwise 6 missed events rightly end the connection attempt )
+                for ( unsigned pattern = 1; pattern < 256; pattern += 2 )
+                {
+                    load( s_second );
+                    c.pattern = pattern;
+                    Outcome so;
+                    second_connection( c, so );
+                    ++rep.evaluations; ++rep.traces_validated;
+                    rep.transitions += g_ll->log.ce_count + g_ll->log.adv_count - events_before;
+                    report( c, so );
+                    const std::string cl = mc::fmt( "reconnect/%s/%s/%s", proc_name[ proc ], end_name[ end ], so.sig.empty() ? so.cls.c_str() : "VIOLATION" );
+                    rep.cls( cl ); ++per_class[ cl ];
+                }
+            }
+        }
+    }
+
     for ( auto& kv : per_class ) rep.counters[ "cases " + kv.first ] = kv.second;
     rep.states = rep.evaluations;
     if ( cut ) { rep.exhaustive = false; rep.notes[ "cut" ] = "deadline hit, product not completed"; }
-    rep.notes[ "bound" ] = mc::fmt( "procedures 3 x latency %zu x k %zu x delta %zu x traffic %zu x 2^%d received/missed patterns; plus receive ring positions 1..%d x delta {2,3,7} x {3 long PDUs, ATT}; peripheral latency configuration %s",
+    rep.notes[ "bound" ] = mc::fmt( "procedures 3 x latency %zu x k %zu x delta %zu x traffic %zu x 2^%d received/missed patterns; plus receive ring positions 1..%d x delta {2,3,7} x {3 long PDUs, ATT}; plus connection ended while pending ( 3 ways ) + second connection x 2^7 patterns ( first event received ); peripheral latency configuration %s",
         lats.size(), ks.size(), deltas.size(), traffics.size(), nev, max_shift, latcfg_name );
     rep.write( a );
     return 0;
